@@ -180,6 +180,12 @@ def report(prop, tier, seed, results, extra, kf_entries, a, t0):
                 kf_lines.append("KNOWN-FINDING: property=%s %s" % (prop, x["text"]))
         elif x.get("kind") == "side-check-failure":
             errors.append((x.get("name", "side-check"), ("checker-error", x.get("text", ""))))
+        elif x.get("kind") == "bounded-violation":
+            # a bounded stand-in found a concrete failing input on the real code
+            failed.append(("bounded:" + x.get("name", ""), {
+                "name": "bounded/" + x.get("name", ""), "kind": "bounded", "goal": "bounded exhaustive check of the real code",
+                "status": "failed", "backend": "native", "secs": 0.0, "model": None,
+                "replay": {"confirmed": True, "how": "native exhaustive run", "actual": x.get("text")}}))
     known_whole = sum(1 for r, kinds in results for ob in r.obligations if ob["status"] == "known-finding"
                       and (kinds is None or ob["kind"] in kinds))
     os.makedirs(os.path.join(ROOT, "replays"), exist_ok=True)
